@@ -409,11 +409,19 @@ Qed.
 Definition elim_on (o : options) : bool := match o_elim o with Some _ => true | None => false end.
 Definition elim_f (o : options) (m : model) : model :=
   match o_elim o with
-  | Some ns => if o_expand_mx o then eliminate_vars ns m else set_failed m
+  | Some ns => if o_expand_mx o
+               then (if no_elim_state ns m then eliminate_vars ns m
+                     else eliminate_vars2 (o_dermap o) ns m)
+               else set_failed m
   | None => m
   end.
+(* no eliminable differentiated state (the get_derivative path is in the executable model and in the
+   correspondence, its solution theorem is C14_pass_eliminable_states_partial) *)
 Definition H_elim (o : options) (m : model) : Prop :=
-  match o_elim o with Some ns => acyclic (elim_defs ns m) | None => True end.
+  match o_elim o with
+  | Some ns => no_elim_state ns m = true /\ acyclic (elim_defs ns m)
+  | None => True
+  end.
 Definition H_rcv (m : model) : Prop := acyclic (const_defs m) /\ no_const_canonical m.
 Definition H_da (o : options) (m : model) : Prop :=
   (forall r, shapes_ok r (map fst (params m) ++ map fst (consts m)) (eqs m)) /\
@@ -470,6 +478,7 @@ Proof.
   { intros r m [H1 H2] _ Hf. now apply sound_replace_const_values. }
   apply Forall_cons.
   { intros r m H Hf Hf'. unfold elim_f, H_elim in *. destruct (o_elim o) as [ns |]; [| tauto].
+    destruct H as [Hn H]. rewrite Hn in *.
     destruct (o_expand_mx o); [| simpl in Hf'; discriminate].
     apply sat2_same_arel; [apply arel_elim | now apply sound_eliminate_vars]. }
   apply Forall_cons; [| apply Forall_nil].
